@@ -126,7 +126,16 @@ func (m MapSchema[K, V]) Unserialize(data any) (any, error) {
 		if err != nil {
 			return nil, ConstraintErrorAddPathSegment(err, fmt.Sprintf("[%v]", k.Interface()))
 		}
-		result.SetMapIndex(reflect.ValueOf(unserializedKey), reflect.ValueOf(unserializedValue))
+		resultKey := reflect.ValueOf(unserializedKey)
+		if result.MapIndex(resultKey).IsValid() {
+			// Two keys of the input, such as "1" and 1, denote the same key. Keeping one of them at random would
+			// make the result depend on the iteration order and could leave fewer entries than the size checks
+			// above counted.
+			return nil, ConstraintErrorAddPathSegment(&ConstraintError{
+				Message: fmt.Sprintf("Duplicate key: more than one key of the input stands for %v", unserializedKey),
+			}, fmt.Sprintf("{%v}", k.Interface()))
+		}
+		result.SetMapIndex(resultKey, reflect.ValueOf(unserializedValue))
 	}
 	return result.Interface(), nil
 }
